@@ -1109,7 +1109,7 @@ FLAVOURS = [
 ]
 
 
-def one_spec(r):
+def one_spec(r, override=None):
     x = r.random()
     acc = 0.0
     fl = {}
@@ -1120,6 +1120,8 @@ def one_spec(r):
             break
     flavour = dict(BASE)
     flavour.update(fl)
+    if override:
+        flavour.update(override)
     items = Gen(r, flavour).spec()
     k = r.random()
     if k < 0.03:
@@ -1130,7 +1132,7 @@ def one_spec(r):
 
 
 def gen(r, tier):
-    n = {"quick": 1500, "search": 6000, "thorough": 20000}[tier]
+    n = {"quick": 700, "search": 3000, "thorough": 12000}[tier]
     cases = []
     for _ in range(n):
         items = one_spec(r)
@@ -1239,6 +1241,249 @@ def distribution(cases, outs):
         k = c[0] + "/" + o.split(" ")[0]
         d[k] = d.get(k, 0) + 1
     return d
+
+
+# ------------------------------------------ "the generated code compiles" (observed)
+
+def py_preprocess(items, env=None):
+    env = set() if env is None else env
+    out = []
+    for it in items:
+        if it[0] == "def":
+            out.append(it[1])
+        elif it[0] == "define":
+            env.add(it[1])
+        elif (it[2] in env) != it[1]:
+            out.extend(py_preprocess(it[3], env))
+    return out
+
+
+def compile_obstacles(defs):
+    """reasons why rustc is NOT expected to accept the generated code although the IDL is fine
+    (each confirmed on the real tool chain; recorded as known finding C41-generated-code-does-not-compile).
+    Empty list = the case belongs to the subset whose generated code must compile."""
+    why = set()
+    decl = {}     # absolute path tuple -> kind ('struct','enum','union','alias-scalar','alias-coll')
+
+    def resolve(mods, t):
+        ab, segs = t[1], t[2]
+        if ab:
+            if not mods:
+                why.add("absolute scoped name outside any module (`a:::X` is not Rust)")
+            return decl.get(tuple(segs))
+        k = decl.get(tuple(mods + segs))
+        if k is None:
+            for cut in range(len(mods) - 1, -1, -1):
+                if tuple(mods[:cut] + segs) in decl:
+                    why.add("name resolved through an enclosing IDL scope (Rust paths do not search outwards)")
+                    return decl[tuple(mods[:cut] + segs)]
+            why.add("reference to an undeclared name")
+        return k
+
+    def elem_ok(mods, t, what):
+        if t[0] in ("seq",):
+            why.add("%s of sequence (no DataStorageMapping for Vec<Vec<T>> / [Vec<T>;N])" % what)
+        elif t[0] == "name":
+            if resolve(mods, t) == "alias-coll":
+                why.add("%s of a typedef'd sequence" % what)
+
+    def check_type(mods, t, declr, optional):
+        if t[0] == "unsup":
+            why.add("unsupported type")
+            return
+        if t[0] == "seq":
+            elem_ok(mods, t[1], "sequence")
+            if t[1][0] == "seq":
+                check_type(mods, t[1], ("s", "_"), False)
+        k = resolve(mods, t) if t[0] == "name" else None
+        if declr[0] == "a":
+            elem_ok(mods, t, "array")
+        if optional and t[0] == "name" and k in ("struct", "enum", "union", None):
+            why.add("@optional member of a constructed type (derive compares Option<T> with !=)")
+
+    def walk(mods, d):
+        k = d[0]
+        if k == "module":
+            if not d[2]:
+                why.add("empty module")
+            for x in d[2]:
+                walk(mods + [d[1]], x)
+        elif k == "struct":
+            if d[3] is not None:
+                resolve(mods, ("name", d[3][0], d[3][1]))
+            for A, t, ds in d[4]:
+                opt = any(a[0] == "optional" for a in A)
+                for dc in ds:
+                    check_type(mods, t, dc, opt)
+            decl[tuple(mods + [d[2]])] = "struct"
+        elif k == "enum":
+            if any(a[0] == "bit_bound" and a[1] is not None for a in d[1]):
+                why.add("@bit_bound enum (generator writes bit_bound(N), derive expects bit_bound = \"N\")")
+            decl[tuple(mods + [d[2]])] = "enum"
+        elif k == "union":
+            if not (d[2][0] == "prim" and d[2][1] in INT_PRIMS):
+                why.add("union discriminator that is not an integer type (labels are copied verbatim)")
+            if d[2][0] == "name":
+                resolve(mods, d[2])
+            for labels, t, dc in d[3]:
+                check_type(mods, t, dc, False)
+                if dc[1] in ("data", "src"):
+                    why.add("union member named like a local variable of the derive macro (data / src)")
+            decl[tuple(mods + [d[1]])] = "union"
+        elif k == "typedef":
+            check_type(mods, d[1], ("s", "_"), False)
+            coll = d[1][0] == "seq" or (d[1][0] == "name" and resolve(mods, d[1]) == "alias-coll")
+            for dc in d[2]:
+                if dc[0] == "a":
+                    why.add("typedef of an array")
+                decl[tuple(mods + [dc[1]])] = "alias-coll" if coll else "alias-scalar"
+        elif k == "const":
+            if d[3] in ("TRUE", "FALSE"):
+                why.add("IDL boolean literal copied verbatim")
+            if d[1][0] == "name":
+                resolve(mods, d[1])
+        elif k == "unsup":
+            why.add("unsupported definition")
+
+    for d in defs:
+        walk([], d)
+    idents = set()
+
+    def tid(t):
+        if t[0] == "name":
+            idents.update(t[2])
+        elif t[0] == "seq":
+            tid(t[1])
+
+    def dids(d):
+        k = d[0]
+        if k == "module":
+            idents.add(d[1])
+            for x in d[2]:
+                dids(x)
+        elif k == "struct":
+            idents.add(d[2])
+            if d[3] is not None:
+                idents.update(d[3][1])
+            for A, t, ds in d[4]:
+                tid(t)
+                idents.update(x[1] for x in ds)
+        elif k == "enum":
+            idents.add(d[2])
+            idents.update(e[1] for e in d[3])
+        elif k == "union":
+            idents.add(d[1])
+            tid(d[2])
+            for labels, t, dc in d[3]:
+                tid(t)
+                idents.add(dc[1])
+        elif k == "typedef":
+            tid(d[1])
+            idents.update(x[1] for x in d[2])
+        elif k == "const":
+            tid(d[1])
+            idents.add(d[2])
+        elif k == "fwd":
+            idents.add(d[2])
+    for d in defs:
+        dids(d)
+    if idents & set(RUST_RESERVED):
+        why.add("identifier reserved in Rust")
+    return sorted(why)
+
+
+COMPILE_PROBES = [
+    "@bit_bound(16) enum HttpStatusCode { @value(100) CONTINUE, @value(200) OK };",
+    "struct Sentence { sequence<sequence<unsigned long> > dependencies; };",
+    "const boolean MY_BOOL = TRUE;",
+    "module M { struct A { long x; }; module N { struct B { A a; }; }; };",
+    "struct I { long x; }; struct S { @optional I z; };",
+    "enum E { A, B }; union U switch(E) { case A: long x; case B: short y; };",
+]
+COMPILE_FINDING = "C41-generated-code-does-not-compile"
+CRATE = os.path.join(CACHE, "c41gen", "crate")
+
+
+def cargo_check_batch(sources, timeout=1500):
+    """sources: list of generated Rust texts.  Returns {index: [error lines]} for those that rustc rejects,
+    or a string when cargo itself could not run."""
+    shutil.rmtree(os.path.join(CRATE, "src"), ignore_errors=True)
+    os.makedirs(os.path.join(CRATE, "src"))
+    with open(os.path.join(CRATE, "Cargo.toml"), "w") as f:
+        f.write('[package]\nname = "c41gen"\nversion = "0.1.0"\nedition = "2024"\n\n[workspace]\n\n'
+                '[dependencies]\ndust_dds = { path = "%s/dds" }\n\n[profile.dev]\ndebug = false\nopt-level = 1\n' % REPO)
+    shutil.copyfile(os.path.join(os.path.dirname(CACHE), "harness", "Cargo.lock"), os.path.join(CRATE, "Cargo.lock"))
+    for i, src in enumerate(sources):
+        with open(os.path.join(CRATE, "src", "c%d.rs" % i), "w") as f:
+            f.write(src + "\n")
+    with open(os.path.join(CRATE, "src", "main.rs"), "w") as f:
+        f.write("#![allow(warnings)]\n" + "".join("mod c%d;\n" % i for i in range(len(sources))) + "fn main() {}\n")
+    env = {"CARGO_TARGET_DIR": os.path.join(CACHE, "target"), "RUSTFLAGS": "--cfg dust_dds_verif"}
+    with Lock("cargo"):
+        rc, out = sh(["cargo", "check", "--offline", "--message-format=short"], cwd=CRATE, timeout=timeout, env=env)
+    bad = {}
+    for l in out.splitlines():
+        m = re.match(r"src/c(\d+)\.rs:\d+:\d+: error(\[E\d+\])?: (.*)", l)
+        if m:
+            bad.setdefault(int(m.group(1)), []).append(((m.group(2) or "") + " " + m.group(3))[:160])
+    if rc != 0 and not bad:
+        return "cargo check failed without a located error: " + out[-600:]
+    if rc == 0 and bad:
+        return "inconsistent cargo output"
+    return bad
+
+
+def extra(ctx, binary):
+    from vlib.core import run_harness, known_ids
+    import random
+    r = random.Random("C41-compile-%d" % ctx.seed)
+    want = {"quick": 40, "thorough": 700}.get(ctx.tier, 40)
+    batch = []           # (kind, case)
+    for c in corpus():
+        batch.append(("corpus", c))
+    for t in COMPILE_PROBES:
+        batch.append(("probe", ("spec", read_idl(t), t)))
+    tries = 0
+    while sum(1 for k, _ in batch if k == "gen") < want and tries < want * 30:
+        tries += 1
+        items = one_spec(r, {"nested_seq": 0.0, "odd_switch": 0.0, "bit_bound": 0.0, "bool_const": 0.0, "unsup_t": 0.0,
+                             "unsup_d": 0.0, "typedef_array": 0.0, "abs_top": 0.0, "outer_ref": 0.0, "empty_module": 0.0})
+        if compile_obstacles(py_preprocess(items)):
+            continue
+        if not has_members(items):
+            continue
+        batch.append(("gen", ("spec", items, idl_text(("spec", items), r))))
+    lines = [case_line(c) for _, c in batch]
+    outs = run_harness(binary, HARNESS, lines)
+    idx = [i for i, o in enumerate(outs) if o.startswith("OK ")]
+    res = cargo_check_batch([outs[i][3:] for i in idx])
+    cov = {"generated_cases": sum(1 for k, _ in batch if k == "gen"), "corpus_and_probes": len(batch) - sum(1 for k, _ in batch if k == "gen"),
+           "checked_by_rustc": len(idx)}
+    if isinstance(res, str):
+        ctx.broken.append("compile observation could not run: " + res)
+        ctx.cov["compile_observation"] = cov
+        return
+    ok_expected = failed_expected = 0
+    for j, i in enumerate(idx):
+        kind, c = batch[i]
+        why = compile_obstacles(py_preprocess(c[1]))
+        if j in res:
+            if why and COMPILE_FINDING in known_ids(PID):
+                failed_expected += 1
+                ctx.known_seen.setdefault(COMPILE_FINDING, lines[i])
+            else:
+                ctx.violations.append(("compile", "generated Rust does not compile against dust_dds (%s) for IDL: %s"
+                                       % ("; ".join(res[j][:2]), lines[i]),
+                                       {"case": lines[i], "harness": HARNESS, "impl_output": outs[i], "rustc": res[j][:5],
+                                        "expected_obstacles": why}))
+        else:
+            ok_expected += 1
+    cov["compiled"] = ok_expected
+    cov["rejected_in_known_constructs"] = failed_expected
+    ctx.cov["compile_observation"] = cov
+    ctx.assumptions.append("compile observation: %d generated + %d corpus/probe specifications checked by rustc against dust_dds; "
+                           "%d compiled, %d rejected inside the recorded constructs" %
+                           (cov["generated_cases"], cov["corpus_and_probes"], ok_expected, failed_expected))
 
 
 MANIFEST = {
